@@ -16,7 +16,7 @@ from . import vlib
 
 CORE = ["visited", "score", "ret", "args", "run", "reuse", "selfassess.run", "selfassess.score", "selfassess.ret",
         "gen.agree", "gen.weight", "upd.args", "upd.constrained", "upd.kept", "upd.weight", "upd.discard",
-        "project.value", "project.split", "regen.unselected", "regen.weight", "regen.empty", "idx.local"]
+        "project.value", "project.split", "regen.unselected", "regen.weight", "regen.empty", "idx.local", "ret.returned"]
 TRC = ["visited", "score", "ret"]      # the new trace is the execution its choices describe (needed to see stale scores)
 UPD = ["upd.args", "upd.constrained", "upd.kept", "upd.weight", "upd.discard", "run"] + TRC
 
@@ -63,7 +63,7 @@ PROFILES = {
                       dict(ids=SLOW, first=["simulate"], edits=["update", "regenerate", "indexupdate", "indexregen"], depth=2, n=(24, 500))]),
     "C07": dict(own=["regen.unselected", "regen.weight", "regen.empty", "upd.args", "regen.prior", "regen.total", "regen.others", "regen.run"] + TRC,
                 gens=[dict(ids=REGEN, first=["simulate", "generate"], edits=["regenerate", "regenerate", "regenerate", "update"], depth=3, n=(128, 2400)),
-                      dict(ids=REGEN_SLOW, first=["simulate"], edits=["regenerate"], depth=2, n=(24, 400))]),
+                      dict(ids=REGEN_SLOW + ["Sc2", "Sc2"], first=["simulate"], edits=["regenerate"], depth=2, n=(48, 500))]),
     "C08": dict(own=["nochange", "tagging", "tagging.run"],
                 gens=[dict(ids=["SLit", "SLit", "SOne", "SChain", "SNest", "S2", "S2", "Dm", "Dm2", "DmMap", "DmCon", "Msk", "VmS", "VmAx", "SwSame", "SVm", "OrE", "OrE", "MskSw", "SDm"], ids_thorough=FAST + ["SLit", "S2", "Dm2"],
                            first=["simulate", "generate"], edits=["update", "update", "update", "updateargs", "regenerate", "staticreq", "empty"], depth=3, n=(160, 2400)),
